@@ -41,6 +41,10 @@ SMALL_GROUPS = [  # (p, g, key_length): primes; any g works for the arithmetic
     ((1 << 521) - 1, 2, 66),
     (65537, 3, 3),
     (251, 6, 1),
+    # moduli above 2048 bits (the arithmetic does not need primality): 3072, 4096 and 8192 bits
+    ((1 << 3072) - 1103717, 2, 384),
+    ((1 << 4096) - 3, 5, 512),
+    ((1 << 8191) - 1 | (1 << 8100), 7, 1024),
 ]
 
 
@@ -142,6 +146,11 @@ def one_case(rec: Recorder, rng, idx: int) -> None:
     if alg == "nonce":
         mode = idx % 5
         nonce = [rng.randbytes(32), bytes(32), b"\x00" * 31 + b"\x01", b"\x00" * 8 + rng.randbytes(24), b"\xff" * 32][mode]
+        if idx % 3 == 0:
+            # nonces that LOOK like one of the structures the decrypting side knows (2^-30 under a real RNG, but legal)
+            magic = rng.choice([b"DHPB", b"DHPM", b"ECK1", b"ECK3", b"ECK5", b"KDSK"])
+            nonce = magic + rng.choice([(8).to_bytes(4, "little"), (32).to_bytes(4, "little"), rng.randbytes(4)]) + rng.randbytes(24)
+            rec.count("structure_lookalike_nonces")
         wit["nonce"] = nonce
         env_seed = envelope(G, h, "DH", b"", 512, 2048, rng.choice([0, 2]), l0, l1, l2, rkid, b"", seed)
         with mon.ENTROPY.record({32: [nonce]}) as ent:
